@@ -78,6 +78,7 @@ package main
 //@     assert[C17:no-direct-store-access] false
 //@   ensures[C17:reject-with-401] !valid ==> rwStatus[w] == 401 && rwWrites[w] == 1
 
+//@ pure lastIs(h ref, k string, v string) bool = len(values(h, k)) >= 1 && values(h, k)[len(values(h, k)) - 1] == v
 //@ func requestHandler props(C17,C19,C07)
 //@   requires s != nil && w != nil && r != nil && rwWrites[w] == 0
 //@   ghost valid bool = false
@@ -94,9 +95,15 @@ package main
 //@     assert[C19:read-the-named-request] arg3 == hget(r.Header, "X-Inverting-Proxy-Request-ID") && arg3 != "" && reads == 0
 //@     do reads = reads + 1
 //@     assume ret1 == nil ==> ret0 != nil
+//@   ghost served int = 0
+//@   ghost readOK bool = false
 //@   call (http.ResponseWriter).Write
-//@     assert[C19:serve-the-stored-request-bytes] valid && reads == 1 && arg1 == request.Contents
+//@     assert[C19:serve-the-stored-request-bytes] valid && reads == 1 && arg1 == request.Contents && served == 0
+//@     assert[C19:served-with-its-ids-user-and-start-time] lastIs(rwHeaderOf(w), "X-Inverting-Proxy-Request-ID", hget(r.Header, "X-Inverting-Proxy-Request-ID"))
+//@     |   && lastIs(rwHeaderOf(w), "X-Inverting-Proxy-User-ID", request.User) && in("X-Inverting-Proxy-Request-Start-Time", rwHeaderOf(w))
+//@     do served = served + 1
 //@   ensures[C17:reject-with-401] !valid ==> rwStatus[w] == 401 && rwWrites[w] == 1 && reads == 0
+//@   ensures[C19:a-stored-request-that-was-read-is-served] readOK ==> served == 1
 
 //@ func responseHandler props(C17,C19,C07)
 //@   requires s != nil && w != nil && r != nil && r.Body != nil && rwWrites[w] == 0
@@ -111,12 +118,15 @@ package main
 //@     do vid = ret0
 //@   call parseResponse
 //@     assert[C17:response-under-validated-id] valid && arg0 == vid && arg1 == r
+//@     do parsedOK = ret1 == nil
 //@   call postResponse
 //@     assert[C17:post-under-validated-id] valid && posts == 0 && arg1 == s && arg2 == response && response.BackendID == vid
 //@     do posts = posts + 1
 //@   call (types.Store).*
 //@     assert[C17:no-direct-store-access] false
+//@   ghost parsedOK bool = false
 //@   ensures[C17:reject-with-401] !valid ==> rwStatus[w] == 401 && rwWrites[w] == 1 && posts == 0
+//@   ensures[C19:a-parsed-upload-is-recorded] parsedOK ==> posts == 1
 
 //@ func handleAgentRequest props(C17,C07)
 //@   requires s != nil && w != nil && r != nil && r.URL != nil && r.Body != nil && rwWrites[w] == 0
@@ -214,10 +224,15 @@ package main
 //@   call http.ReadResponse
 //@     assert[C19:response-parsed-against-this-request] arg0 == bufr && arg1 == r
 //@     do parsed = ret0
+//@     do parsedOK = ret1 == nil
 //@   call cacheResponse
 //@     assert[C19:only-own-200-get-responses-are-cached-under-user-and-url] r.Method == "GET" && parsed != nil && parsed.StatusCode == 200 && arg1 == sprintf("cache:%q:%q", currentUser.Email, urlString(r.URL)) && arg2 == rb
 //@   call forwardResponse
-//@     assert[C19:client-gets-the-response-read-for-this-request] arg1 == requestID && arg2 == w && ((fromCache && !waited && arg3 == cached) || (waited && arg3 == parsed)) && arg3 != nil
+//@     assert[C19:client-gets-the-response-read-for-this-request] arg1 == requestID && arg2 == w && ((fromCache && !waited && arg3 == cached) || (waited && arg3 == parsed)) && arg3 != nil && relayed == 0
+//@     do relayed = relayed + 1
+//@   ghost relayed int = 0
+//@   ghost parsedOK bool = false
+//@   ensures[C19:a-parsed-or-cached-response-is-relayed] (fromCache && !waited) || parsedOK ==> relayed == 1
 //@   ensures[C17:anonymous-is-401] !looked ==> rwStatus[w] == 401 && rwWrites[w] == 1
 //@   ensures[C18:lookup-failure-is-404] looked && lerr ==> rwStatus[w] == 404 && !stored
 
